@@ -17,6 +17,7 @@ Nodes (tuples):
   ("while", counter, bound, body)       def counter = 0; while counter < bound do counter += 1; body end
   ("fun", name, body)                   def name() do body end
   ("call", name, tag)                   def r = name(); log [tag, r]
+  ("return_call", name)                 return name()
   ("if", [(cond_name, value, body)], else_body)   if cond_name == value then ... elif ... else ...
   ("logvar", var)                       append(log, var)
 Exit kinds (value of `kind`/`kind2`): 0 error ev, 1 undefined name, 2 division by zero,
@@ -97,6 +98,8 @@ def render1(n, ind):
     if t == "call":
         _, name, tag = n
         return "%sdef r%d = %s();\n%sappend(log, [%d, r%d])" % (ind, tag, name, ind, tag, tag)
+    if t == "return_call":
+        return "%sreturn %s()" % (ind, n[1])
     if t == "fun1":
         _, name, body = n
         return "%sdef %s(p, q = 0) do\n%s\n%send" % (ind, name, render(body, ind + "  "), ind)
@@ -250,6 +253,21 @@ class Ref:
         if t == "call1":
             n = ("call", n[1], n[3])
             t = "call"
+        if t == "return_call":
+            # return <call>: the callee's value leaves the enclosing function (through its blocks)
+            saved, self.in_finally = self.in_finally, 0
+            try:
+                try:
+                    r = self.run(self.funs[n[1]])
+                except Ret as e:
+                    r = e.value
+                except (Brk, Cnt):
+                    raise Err(self.error)
+            finally:
+                self.in_finally = saved
+            if self.in_finally:
+                raise FinCtl()
+            raise Ret(r)
         if t == "call":
             _, name, tag = n
             # a return / stray break / continue inside the callee is an ordinary exit of the callee,
